@@ -167,7 +167,8 @@ def run(spec):
     labels = ['family:' + fam, 'reduction:%s' % spec['reduction'], 'outcome:' + outcome]
     n_sim = len([e for e in spec['eqs'] if e[2] == 'sim'])
     if outcome != 'ok':
-        if outcome in ('ConvergenceError', 'ValueError', 'OverflowError', 'ZeroDivisionError'):
+        # loud failure with one of the documented error families (classes, not class names: a subclass is fine)
+        if isinstance(ex, (ValueError, ArithmeticError)):
             nt = fam not in ('affine', 'mild-nonlinear')
             return {'nontrivial': nt, 'labels': labels}
         raise Violation('C02/unexpected-exception', 'solver raised %s: %s on a well-formed block' % (outcome, ex))
@@ -282,7 +283,7 @@ def run_reuse(spec):
             outcomes.append('ok')
         except Exception as ex:
             outcomes.append(type(ex).__name__)
-            if type(ex).__name__ not in ('ConvergenceError', 'ValueError'):
+            if not isinstance(ex, (ValueError, ArithmeticError)):
                 raise Violation('C02/reuse-unexpected-exception', 'block %s on a reused solver raised %s: %s' %
                                 (which, type(ex).__name__, ex))
     labels = ['mode:' + spec['mode'], 'outcomes:' + '/'.join(outcomes)]
